@@ -283,7 +283,10 @@ end generic
 /-! ### `find_omega_general` -/
 
 lemma Tools_fomg_eq (ω χ w : ℝ) :
-    Tools.form_omega_mat_general ω χ w = Spec.Rx χ * (Spec.Ry w * Spec.Rz ω) := rfl
+    Tools.form_omega_mat_general ω χ w = Spec.Rx χ * (Spec.Ry w * Spec.Rz ω) := by
+  ext i j; fin_cases i <;> fin_cases j <;>
+    simp [Tools.form_omega_mat_general, Tools.form_omega_mat, Spec.Rx, Spec.Ry, Spec.Rz, Matrix.mul_apply, Fin.sum_univ_three] <;>
+    first | done | ring
 
 lemma Tools_fomg_orth (ω χ w : ℝ) :
     (Tools.form_omega_mat_general ω χ w)ᵀ * Tools.form_omega_mat_general ω χ w = 1 := by
